@@ -39,11 +39,39 @@ def make_pair(case):
     from cm_colors import ColorPair
 
     t, b = gc.dec(case["text"]), gc.dec(case["bg"])
+    w = case.get("warm") or {}
+    if w.get("other_bg") is not None:
+        # the same text literal was used on ANOTHER background earlier in this process (only matters for translucent text)
+        try:
+            ColorPair(t, gc.dec(w["other_bg"]), case.get("large", False)).is_readable
+        except Exception as e:
+            raise Violation(exc_bucket(e), f"ColorPair({t!r}, {w['other_bg']!r}) raised {e!r}")
     try:
         pair = ColorPair(t, b, case.get("large", False))
     except Exception as e:
         raise Violation(exc_bucket(e), f"ColorPair({t!r}, {b!r}) raised {e!r}")
     return pair, t, b
+
+
+def true_original(pair, t, bg_rgb):
+    """The composited original text colour. Normally the library's own pair.text.rgb (its correctness is C13's business), but
+    if that is further than 1.5 units per channel from the exact source-over blend it is stale or wrong, and the exact blend
+    (rounded) is what the user's text really looks like."""
+    try:
+        if isinstance(t, str):
+            fq = ocss.parse_input(t)
+        elif isinstance(t, (tuple, list)) and len(t) == 4 and all(isinstance(v, int) and not isinstance(v, bool) for v in t[:3]):
+            fq = (F(t[0]), F(t[1]), F(t[2]), F(t[3]))
+        else:
+            return pair.text.rgb
+    except (ocss.CssReject, TypeError, ValueError):
+        return pair.text.rgb
+    if fq[3] == 1:
+        return pair.text.rgb
+    exact = ocss.composite(fq, bg_rgb)
+    if all(abs(F(pair.text.rgb[k]) - exact[k]) <= F(3, 2) + F(1, 10**9) for k in range(3)):
+        return pair.text.rgb
+    return tuple(int(round(float(x))) for x in exact)
 
 
 def verdict(rgbs, bg, minimum):
@@ -114,8 +142,9 @@ def minimum_for(case):
 def warm():
     """Optional earlier call on the SAME ColorPair object with other settings (None two times in three): results
     must not depend on it (a per-object memo or a cache keyed on part of the arguments would make them)."""
+    other_bg = st.one_of(st.none(), st.none(), st.sampled_from(["#ffffff", "#000000", "#808080", "#b7439e"]))
     return st.one_of(st.none(), st.none(), st.fixed_dictionaries({"mode": st.sampled_from([0, 1, 2]), "very": st.booleans(),
-                                                                  "large": st.sampled_from([None, None, False, True])}))
+                                                                  "large": st.sampled_from([None, None, False, True]), "other_bg": other_bg}))
 
 
 def call_make_readable(pair, case, **extra):
